@@ -45,6 +45,15 @@ func init() {
 			return types.WrapValues(append([]px.Value{}, args...))
 		})
 	})
+	px.NewGoFunction(`verif_first`, func(d px.Dispatch) {
+		d.RepeatedParam(`Any`)
+		d.Function(func(c px.Context, args []px.Value) px.Value {
+			if len(args) == 0 {
+				return px.Undef
+			}
+			return args[0]
+		})
+	})
 }
 
 var typeNames = map[string]bool{"Integer": true, "String": true, "Any": true, "Boolean": true, "Nope": true}
@@ -83,47 +92,87 @@ func isRVal(e sx.Sexp) bool {
 		}
 		return true
 	case "dt":
-		if len(a) != 1 || a[0].IsList {
+		if len(a) < 1 || a[0].IsList {
 			return false
 		}
 		b, err := a[0].AsBytes()
-		return err == nil && utf8.Valid(b)
+		if err != nil || !utf8.Valid(b) {
+			return false
+		}
+		for _, k := range a[1:] { // parameters: op `resp` only (no model)
+			if !isRVal(k) {
+				return false
+			}
+		}
+		return true
+	}
+	return false
+}
+
+// hasTypeParams: a DeferredType with parameters somewhere inside (resolved by the unexported resolveValue /
+// ResolveWithParams: outside the Lean model, op `resp`)
+func hasTypeParams(e sx.Sexp) bool {
+	if e.Tag() == "dt" && len(e.Args()) > 1 {
+		return true
+	}
+	for _, k := range e.Args() {
+		if k.IsList && hasTypeParams(k) {
+			return true
+		}
+		if k.IsList && k.Tag() == "" {
+			for _, kk := range k.List {
+				if hasTypeParams(kk) {
+					return true
+				}
+			}
+		}
 	}
 	return false
 }
 
 // inDomain: the names this op covers — variables, the function the harness registers, one unknown function, five type
 // names (any other Deferred name may be a real function of pcore, e.g. `new`)
-func inDomain(e sx.Sexp) bool {
+func inDomain(e sx.Sexp, implOnly bool) bool {
 	a := e.Args()
 	switch e.Tag() {
 	case "a":
 		for _, k := range a {
-			if !inDomain(k) {
+			if !inDomain(k, implOnly) {
 				return false
 			}
 		}
 	case "h":
 		for _, kv := range a {
-			if !inDomain(kv.List[0]) || !inDomain(kv.List[1]) {
+			if !inDomain(kv.List[0], implOnly) || !inDomain(kv.List[1], implOnly) {
 				return false
 			}
 		}
 	case "d":
 		nm := a[0].MustStr()
-		if !(strings.HasPrefix(nm, "$") || nm == "verif_list" || nm == "nofunc") {
+		if !(strings.HasPrefix(nm, "$") || nm == "verif_list" || nm == "nofunc" || (implOnly && nm == "verif_first")) {
 			return false
 		}
 		for _, k := range a[1:] {
-			if !inDomain(k) {
+			if !inDomain(k, implOnly) {
 				return false
 			}
 		}
 	case "dt":
+		if len(a) > 1 {
+			for _, k := range a[1:] {
+				if !inDomain(k, implOnly) {
+					return false
+				}
+			}
+			return paramTypeNames[a[0].MustStr()]
+		}
 		return typeNames[a[0].MustStr()]
 	}
 	return true
 }
+
+var paramTypeNames = map[string]bool{"Integer": true, "String": true, "Array": true, "Hash": true, "Tuple": true, "Struct": true,
+	"Variant": true, "Optional": true, "Enum": true, "Type": true}
 
 func isScalar(e sx.Sexp) bool { return e.Tag() == "i" || e.Tag() == "s" }
 
@@ -194,7 +243,14 @@ func rvalOf(e sx.Sexp) px.Value {
 		}
 		return types.NewDeferred(a[0].MustStr(), vs...)
 	case "dt":
-		return types.NewDeferredType(a[0].MustStr())
+		if len(a) == 1 {
+			return types.NewDeferredType(a[0].MustStr())
+		}
+		vs := make([]px.Value, len(a)-1)
+		for i, k := range a[1:] {
+			vs[i] = rvalOf(k)
+		}
+		return types.NewDeferredType(a[0].MustStr(), vs...)
 	}
 	return valOf(e)
 }
@@ -213,7 +269,12 @@ func rwalk(b *strings.Builder, v px.Value, depth int) {
 		v.Arguments().Each(func(e px.Value) { b.WriteByte(' '); rwalk(b, e, depth+1) })
 		b.WriteByte(')')
 	case *types.DeferredType:
-		b.WriteString("(dt " + sx.Str(v.Name()).Atom + ")")
+		b.WriteString("(dt " + sx.Str(v.Name()).Atom)
+		for _, e := range v.Parameters() {
+			b.WriteByte(' ')
+			rwalk(b, e, depth+1)
+		}
+		b.WriteByte(')')
 	case px.Type:
 		b.WriteString("(t " + sx.Str(v.String()).Atom + ")")
 	case *types.Array:
@@ -326,6 +387,14 @@ func parts(what string, v, twin px.Value, out []watched, depth int) []watched {
 		for i := 0; i < x.Arguments().Len() && i < tw.Arguments().Len(); i++ {
 			out = parts("deferred-argument", x.Arguments().At(i), tw.Arguments().At(i), out, depth+1)
 		}
+	case *types.DeferredType:
+		tw, _ := twin.(*types.DeferredType)
+		if tw == nil || len(tw.Parameters()) != len(x.Parameters()) {
+			return out
+		}
+		for i, e := range x.Parameters() {
+			out = parts("type-parameter", e, tw.Parameters()[i], out, depth+1)
+		}
 	case *types.Array:
 		tw, _ := twin.(*types.Array)
 		if tw == nil {
@@ -377,7 +446,10 @@ func hasTag(e sx.Sexp, tag string) bool {
 	return false
 }
 
-func execRes(c px.Context, args []sx.Sexp) core.Result {
+func execRes(c px.Context, args []sx.Sexp, implOnly bool) core.Result {
+	if len(args) >= 1 && hasTypeParams(args[0]) != implOnly {
+		return core.Result{Out: "bad-op", Pred: "FAIL harness-bad-op res: a DeferredType with parameters belongs to op resp, and only there"}
+	}
 	if len(args) < 2 || !isRVal(args[0]) {
 		return core.Result{Out: "bad-op", Pred: "FAIL harness-bad-op res"}
 	}
@@ -386,9 +458,9 @@ func execRes(c px.Context, args []sx.Sexp) core.Result {
 			return core.Result{Out: "bad-op", Pred: "FAIL harness-bad-op res-scope " + s.String()}
 		}
 	}
-	ok := inDomain(args[0])
+	ok := inDomain(args[0], implOnly)
 	for _, s := range args[1:] {
-		ok = ok && isScope(s) && inDomain(s)
+		ok = ok && isScope(s) && inDomain(s, false) && !hasTypeParams(s)
 	}
 	if !ok {
 		return core.Result{Out: "~", Pred: "n/a", Tags: []string{"res-outside"}}
@@ -558,6 +630,24 @@ func genRes(g *core.G) {
 			line += " " + randScope(r).String()
 		}
 		g.Emit(line)
+	}
+	// DeferredType WITH parameters (implementation only: `resolveValue` / `ResolveWithParams` are outside the model):
+	// parameters that hold Deferred calls and nested DeferredTypes, inside lists and maps, resolved twice
+	first := func(x sx.Sexp) sx.Sexp { return dv("verif_first", x) }
+	dtp := func(name string, ps ...sx.Sexp) sx.Sexp { return sx.T("dt", append([]sx.Sexp{sx.Str(name)}, ps...)...) }
+	tps := []sx.Sexp{
+		dtp("Integer", iv(1), iv(5)), dtp("Integer", first(iv(1)), iv(5)), dtp("Array", dtv("Integer")),
+		dtp("Array", dtp("Integer", first(iv(0)), first(iv(9))), iv(1), first(iv(3))),
+		dtp("Tuple", dtv("String"), dtp("Array", dtv("Integer"))), dtp("Hash", dtv("String"), first(dtv("Integer"))),
+		dtp("Struct", hv(kv(sv("a"), dtv("Integer")), kv(sv("b"), first(dtp("Optional", dtv("String")))))),
+		dtp("Variant", dtv("Integer"), first(dtv("String"))), dtp("Enum", sv("a"), first(sv("b"))),
+		dtp("Optional", first(dv("verif_first", dtv("Integer")))), dtp("Type", dtp("Integer", iv(1), first(iv(2)))),
+		dtp("Array", dv("$v")), dtp("Integer", first(dv("nofunc"))), dtp("Integer", sv("x")),
+	}
+	for _, t := range tps {
+		for _, v := range []sx.Sexp{t, av(sv("x"), t), hv(kv(sv("t"), t), kv(t, iv(1))), dv("verif_list", t, av(t))} {
+			g.Emit("@resp " + v.String() + " " + scopes[0].String() + " " + scopes[5].String())
+		}
 	}
 	// malformed stream: not a scope, unknown type name, entry outside a hash, no scope at all
 	g.Emit("res " + av(iv(1)).String() + " " + av(iv(1)).String())
